@@ -138,7 +138,7 @@ def lanczos_tridiag(
             inner_products = q_mat[: k + 1].mul(r_vec.unsqueeze(0)).sum(dim_dimension)
             could_reorthogonalize = False
             for _ in range(10):
-                if not torch.sum(inner_products > tol):
+                if not torch.sum(inner_products.abs() > tol):
                     could_reorthogonalize = True
                     break
                 correction = r_vec.unsqueeze(0).mul(q_mat[: k + 1]).sum(dim_dimension, keepdim=True)
